@@ -33,6 +33,8 @@ def families(maxk):
     out.append(G(8, 11, [(8, [9, 1, 2, 3]), (8, [10, 1, 2, 4]), (8, [9, 7, 2, 4]), (8, [10, 7, 2, 3]), (9, [5]), (10, [5])], 3, "two-tries-swapped-k3"))
     # the lookahead continues after a reduction: S: A a b | T d | B a c ; T: A a ; A: e ; B: e  (1 a 2 b 3 c 4 d 5 e; S=6 A=7 B=8 T=9)
     out.append(G(6, 10, [(6, [7, 1, 2]), (6, [9, 4]), (9, [7, 1]), (6, [8, 1, 3]), (7, [5]), (8, [5])], 2, "lookahead-after-reduction-k2"))
+    # the same with the reduction on the other side: S: A X d | B a f ; X: a ; A: e ; B: e  (1 a 2 d 3 f 4 e; S=5 A=6 B=7 X=8)
+    out.append(G(5, 9, [(5, [6, 8, 2]), (5, [7, 1, 3]), (8, [1]), (6, [4]), (7, [4])], 2, "lookahead-after-reduction-k2-nt"))
     # two states with equal LALR(1) rows and equivalent successors whose lookahead automata choose in opposite ways (only the automaton
     # tells them apart, which matters to minimizeDFA): S: p e x | q e x | p A a b | p B a c | q A a c | q B a b ; A: e ; B: e
     # (1 p 2 q 3 e 4 x 5 a 6 b 7 c; S=8 A=9 B=10)
@@ -46,7 +48,7 @@ def families(maxk):
 
 
 def sigv(c, rec, vname):
-    if c.get("tag") == "lookahead-after-reduction-k2" and vname == "AcceptConforms":
+    if (c.get("tag") or "").startswith("lookahead-after-reduction-k2") and vname == "AcceptConforms":
         return "lalrk-lookahead-after-reduction"
     return c01.sigv(c, rec, vname)
 
